@@ -340,6 +340,10 @@ class Harness:
         beh = sc['body']
         n = sc['chunks']
         H = self
+        if n % 2:
+            # a header value given as bytes, with control characters (finalize must clean it like any other)
+            import cherrypy
+            cherrypy.serving.response.headers['X-Tag'] = b'abc\r\nSet-Cookie: injected=1'
         if sc['stream']:
             def gen():
                 for i in range(n):
@@ -393,6 +397,12 @@ class Harness:
                 raise exc_info[1]
             res['start_calls'].append(bool(exc_info))      # completed calls only
             res['status_line'], res['headers'] = status, list(headers)
+            # PEP 3333: names and values are native strings without control characters
+            for k, v in headers:
+                if not (isinstance(k, str) and isinstance(v, str)):
+                    res['problems'].append('non-str header %r' % ((k, v),))
+                elif any(ord(ch) < 32 or ord(ch) == 127 for ch in k + v):
+                    res['problems'].append('ctl-in-header %r' % ((k, v),))
             return lambda d: None
         res['chunks_sent'] = False
         self.active = True
